@@ -264,6 +264,7 @@ class Resolver:
         if m:
             ty = norm_type(m.group(1)); trait = m.group(2).rsplit('::', 1)[-1]; meth = m.group(3)
             if re.match(r'^&?[A-Z]\w?$|^&?Self$|^CF$', ty) or ty.lstrip('&') in self.tymap: return ('dyn', trait, meth, ty.lstrip('&'))
+            if m.group(1).strip().startswith('dyn '): return ('dyn', trait, meth, None)      # trait object: dispatch on the receiver value's type
             try: return self.method(ty.lstrip('&'), meth, trait)
             except Unsupported: return None
         # path::Type::method  (inherent)
